@@ -56,12 +56,13 @@ pub struct Cx {
     pub lifted: Vec<String>, // loop fixpoints lifted out of the current function
     pub self_var: String,    // current Coq term for a MutVal self
     pub fun_params: Vec<String>, // function-valued macro parameters used by the body
+    pub layout_params: bool,     // the body talks about addresses: (v_base v_size : Z) are parameters
 }
 
 impl Cx {
     pub fn new(sigs: HashMap<String, Sig>, cur_key: &str) -> Cx {
         let cur = sigs[cur_key].clone();
-        Cx { scopes: vec![HashMap::new()], fresh: 0, sigs, cur, cur_key: cur_key.to_string(), lifted: vec![], self_var: "v_self".into(), fun_params: vec![] }
+        Cx { scopes: vec![HashMap::new()], fresh: 0, sigs, cur, cur_key: cur_key.to_string(), lifted: vec![], self_var: "v_self".into(), fun_params: vec![], layout_params: false }
     }
     pub fn push(&mut self) {
         self.scopes.push(HashMap::new());
